@@ -1059,11 +1059,21 @@ Fixpoint validate_files (files : list DataFile) (seen : list Z) : bool :=
 Fixpoint sorted_n (l : list N) : bool :=
   match l with [] => true | x :: r => match r with [] => true | y :: _ => (x <=? y) && sorted_n r end end.
 Definition is_legacy_file (d : DataFile) : bool := (fst (df_version d) =? 0) && (snd (df_version d) <? 3).
+Fixpoint strict_sorted_z (l : list Z) : bool :=
+  match l with
+  | [] => true
+  | x :: r => match r with [] => true | y :: _ => (x <? y)%Z && strict_sorted_z r end
+  end.
+(* DataFile::validate: a legacy file must list its field ids strictly increasing (for the other files
+   fields.len() == column_indices.len(), not modelled) *)
+Definition validate_data_file (d : DataFile) : bool :=
+  if is_legacy_file d then strict_sorted_z (df_fields d) else true.
 (* FileFragment::validate on the manifest entry plus the storage facts it reads back (file lengths, deletion
-   vector).  Not modelled: DataFile::validate (column_indices). *)
+   vector) *)
 Definition validate_fragment (schema : list Z) (f : Fragment) : bool :=
   validate_files (fr_files f) []
   && Bool.eqb (existsb is_legacy_file (fr_files f)) (forallb is_legacy_file (fr_files f))
+  && forallb validate_data_file (fr_files f)
   (* open_reader: a data file without any field of the dataset schema is an error *)
   && forallb (fun d => existsb (fun x => z_mem x schema) (df_fields d)) (fr_files f)
   && (let expected := match fr_files f with d :: _ => df_rows d | [] => 0 end in
@@ -1086,6 +1096,12 @@ Definition validate_dataset (m : Manifest) : bool :=
 
 (* some data file still lists a tombstoned field (regression: Dataset::validate used to reject these) *)
 Definition has_tombstone (f : Fragment) : bool := existsb (fun d => z_mem TOMBSTONE (df_fields d)) (fr_files f).
+
+(* Known finding (C05) validate_rejects_tombstone_in_legacy_file: a LEGACY (0.1) data file that lists a
+   tombstoned field: DataFile::validate still requires strictly increasing field ids for legacy files, and
+   -2 in the middle of the list breaks that *)
+Definition Known_C05_validate_rejects_tombstone_in_legacy_file (m : Manifest) : bool :=
+  existsb (fun f => existsb (fun d => is_legacy_file d && z_mem TOMBSTONE (df_fields d)) (fr_files f)) (m_fragments m).
 
 (* Known finding (C05) stable_rowids_deferred_remap_unassigned_fragment_ids: a Rewrite that carries a
    fragment-reuse index (compaction with defer_index_remap) on a table with stable row ids while its new
